@@ -359,9 +359,23 @@ class BaseWSGIServer(wasyncore.dispatcher):
         The timeout is configured through adj.channel_timeout (seconds).
         """
         cutoff = now - self.adj.channel_timeout
+        marked = False
         for channel in self.active_channels.values():
             if (not channel.requests) and channel.last_activity < cutoff:
                 channel.will_close = True
+                marked = True
+
+        if marked:
+            # A marked channel is normally closed by its next write event, but
+            # a peer that has stopped reading never lets one happen. We are
+            # inside the loop's readable() pass here and must not alter the
+            # socket map, so close from the trigger's event handler instead.
+            self.trigger.pull_trigger(self.close_marked_channels)
+
+    def close_marked_channels(self):
+        for channel in list(self.active_channels.values()):
+            if channel.will_close and not channel.requests:
+                channel.handle_close()
 
     def print_listen(self, format_str):  # pragma: no cover
         self.log_info(format_str.format(self.effective_host, self.effective_port))
